@@ -399,8 +399,8 @@ def describe(case, obs=None, full=False):
 
 
 def gen_cases(rng, tier):
-    n_pl = 400 if tier == 'quick' else 4000
-    n_ph = 150 if tier == 'quick' else 1500
+    n_pl = 800 if tier == 'quick' else 6000
+    n_ph = 300 if tier == 'quick' else 2500
     cases = [gen_plateau(rng, tier) for _ in range(n_pl)] + [gen_phase(rng) for _ in range(n_ph)]
     # a few fixed series: the shapes of the upstream tests and the documented corner cases
     fixed = [
